@@ -25,9 +25,12 @@ MANIFEST = {
              "mutual induction over the class tree, any depth and width: for trees whose leaves are stable under "
              "conversion+postprocess the empty parse equals the constructor's own result (c01_no_caller, "
              "c01_member_factory), and with a caller instance it equals that instance (c01_caller_default). The one named "
-             "gap: leaf stability is a hypothesis, and it is false for a Union[float,str] default '0', which argparse "
-             "converts to 0.0 (witness theorem c01_union_default_witness, open finding C01-union-str-default-converted); "
-             "plain non-string leaves are proved stable. The model is configuration-free (option spelling cannot matter "
+             "gap: leaf stability fails for a string held by a Union-typed leaf — Union[float,str] default '0' is converted "
+             "to 0.0 by argparse (witness theorem c01_union_default_witness, open finding C01-union-str-default-converted). "
+             "Everywhere else on the grammar stability is proved, not assumed (leafStable_of_stableDefault: list, tuple, "
+             "variadic tuple, str, bool, Path, Enum, Optional[...] holding None or a value, int/float/Any, Union holding a "
+             "non-string), so c01_caller_default_typed needs no stability hypothesis: any instance whose leaves are typed "
+             "values comes back unchanged. The model is configuration-free (option spelling cannot matter "
              "for an empty argv); that the real parser agrees under all 72 configurations and both APIs is what the "
              "correspondence and the oracle check on every run."),
     "note": ("Trusted: Lean kernel + standard axioms; harness. Modelled not verified: field_wrapper.py:711-821, "
